@@ -268,6 +268,12 @@ func (cp *copier) walkHostFS(dest, src string, maxSymlinks int, includeMounts bo
 		}
 		if !strings.HasPrefix(target, "/") {
 			target = filepath.Join(filepath.Dir(src), target)
+		} else {
+			// Resolve "." and ".." components before
+			// deciding which mount the target belongs
+			// to: "/outdir/../foo" is not inside the
+			// output directory.
+			target = filepath.Clean(target)
 		}
 		return cp.walkMount(dest, target, maxSymlinks-1, true)
 	}
